@@ -13,12 +13,15 @@ PROPS = {
                   "plugin's real parseSetupConf (round-trip + table/metamorphic check of getDatePath)",
         rule="cases drawn by rapid generators (allocation world: legacy pool / exclusive ENI / trunk PodENI / CRD node "
              "binding / CRD PodENI, ipv4|dual|ipv6, 1-4 allocations, CNI conf, runtime bandwidth); non-trivial = reply "
-             "with >= 2 NetConfs, or dual-stack, or a runtime bandwidth override (for the defaulting test: list of >= 2 "
+             "with >= 2 NetConfs, or dual-stack, or a runtime bandwidth override, or a CRD node holding stale records of an earlier incarnation of the pod (for the defaulting test: list of >= 2 "
              "entries; for the datapath table: trunk set); distinct = distinct scenario hash",
         assumptions=[
             "PodENI objects have the shapes terway's controllers write: every allocation has an IPv4 address with its vSwitch CIDR "
             "(plus IPv6 with CIDR on dual-stack), Status.ENIInfos has an entry per allocation, interface names are distinct; "
             "default-route flags and the presence of a primary interface are NOT assumed (the daemon must refuse bad combinations)",
+            "CRD worlds: the pod's current binding (PodID + current PodUID) is one slot of one ENI; other slots may be held by other pods or, "
+            "Valid, by an earlier incarnation of the same namespace/name with a different non-empty PodUID (recreated pod); each such world "
+            "repeats the request 6 times because the daemon ranges over Go maps",
             "pool worlds serve the request from a cached free address (no cloud call); vSwitch CIDRs are /8../29 and /32../120 "
             "with pod addresses never on the network, gateway or last two addresses (the cloud's rule)",
             "ENI MAC addresses are empty because link.GetDeviceNumber "
